@@ -89,7 +89,11 @@ func Cases(o CaseOpts) []Case {
 					}
 				}
 				if o.Edits {
-					for _, ed := range gen.Edits1(s, thorough) {
+					lvl := 0
+					if thorough {
+						lvl = 2
+					}
+					for _, ed := range gen.EditsLevel(s, lvl) {
 						out = append(out, Case{Entry: e, File: "main.tf", Text: ed, Family: "edit", PosTo: -1})
 					}
 				}
